@@ -448,14 +448,15 @@ theorem C13_dist_chunk_free (s : Distortion ℝ) (h : s.Stagnant) (xs ys : List 
 
 /-! ## compressor
 
-  `1.0 / ratio` with `ratio = 0` is `+inf`, and `0 · inf = NaN` reaches the output on the first
-  frame (finding `comp_ratio_zero`); the theorems carry `ratio ≠ 0` explicitly. -/
+  `1.0 / ratio` with `ratio = 0` used to be `+inf`, and `0 · inf = NaN` reached the output on the first
+  frame (defect `comp-ratio-zero-nan`, repaired: a ratio of exactly 0 now has slope 0, like a ratio of 1 —
+  `Compressor.slope`); the theorems hold for EVERY ratio. -/
 
 /-- the envelope pair of a compressor -/
 def Compressor.env (s : Compressor ℝ) : ℝ × ℝ := (s.envL, s.envR)
 
 /-- **dry is identity**: with the mix resting at 0 (or below) the compressor returns its input. -/
-theorem C13_comp_dry_is_identity (s : Compressor ℝ) (h : s.Stagnant) (_hr : s.ratio.raw ≠ 0)
+theorem C13_comp_dry_is_identity (s : Compressor ℝ) (h : s.Stagnant)
     (h0 : s.mix.raw ≤ 0) (xs : List (Frame ℝ)) (dt : ℝ) (info : Info ℝ) :
     (s.process xs dt info).2 = xs := by
   rw [Compressor.process_stagnant s h]
@@ -464,7 +465,7 @@ theorem C13_comp_dry_is_identity (s : Compressor ℝ) (h : s.Stagnant) (_hr : s.
   simp only [Compressor.tickV, Compressor.tick, clamp01_of_le_zero _ h0, dryWet_dry]
 
 /-- **silence stays silent** from the cleared state (envelopes 0), and the envelopes stay 0. -/
-theorem C13_comp_silence_to_silence (s : Compressor ℝ) (h : s.Stagnant) (_hr : s.ratio.raw ≠ 0)
+theorem C13_comp_silence_to_silence (s : Compressor ℝ) (h : s.Stagnant)
     (h1 : s.envL = 0) (h2 : s.envR = 0) (n : ℕ) (dt : ℝ) (info : Info ℝ) :
     (s.process (silence n) dt info).2 = silence n ∧ (s.process (silence n) dt info).1.env = (0, 0) := by
   rw [Compressor.process_stagnant s h, h1, h2]
@@ -482,14 +483,18 @@ theorem C13_comp_silence_to_silence (s : Compressor ℝ) (h : s.Stagnant) (_hr :
 /-- **defined**: for `dt > 0`: a non-zero sample has a positive magnitude (the argument of
     `log10`; a zero sample never reaches it); a positive attack/release time gives a positive
     divisor `duration / dt` and a smoothing factor strictly between 0 and 1, a zero duration gives
-    factor 0; both square-root arguments of the blend lie in [0, 1]. (`1/ratio` needs `ratio ≠ 0`.) -/
+    factor 0; both square-root arguments of the blend lie in [0, 1]; and for ANY ratio the gain slope
+    is defined: `1/ratio − 1` with a non-zero divisor when `ratio ≠ 0`, and 0 when `ratio = 0` (the
+    division is not evaluated). -/
 theorem C13_comp_defined (x mix dt : ℝ) (D : ℕ) (hdt : 0 < dt) :
     (x ≠ 0 → 0 < |x|)
       ∧ (0 < D → 0 < (durToSecs D : ℝ) / dt ∧ 0 < Compressor.speed D dt ∧ Compressor.speed D dt < 1)
       ∧ Compressor.speed 0 dt = 0
+      ∧ (∀ ratio : ℝ, (ratio ≠ 0 → Compressor.slope ratio = 1 / ratio - 1) ∧ (ratio = 0 → Compressor.slope ratio = 0))
       ∧ 0 ≤ clamp mix (0.0 : ℝ) (1.0 : ℝ) ∧ clamp mix (0.0 : ℝ) (1.0 : ℝ) ≤ 1
       ∧ 0 ≤ 1 - clamp mix (0.0 : ℝ) (1.0 : ℝ) ∧ 1 - clamp mix (0.0 : ℝ) (1.0 : ℝ) ≤ 1 := by
-  refine ⟨fun hx => abs_pos.mpr hx, ?_, by simp [Compressor.speed], dryWet_args mix⟩
+  refine ⟨fun hx => abs_pos.mpr hx, ?_, by simp [Compressor.speed],
+    fun ratio => ⟨Compressor.slope_of_ne_zero ratio, fun h => by rw [h, Compressor.slope_zero]⟩, dryWet_args mix⟩
   intro hD
   have hs : 0 < (durToSecs D : ℝ) := durToSecs_pos D hD
   have hq : 0 < (durToSecs D : ℝ) / dt := by positivity
